@@ -3,6 +3,7 @@ package main
 import (
 	"fmt"
 	"sort"
+	"sync"
 	"syscall"
 	"unsafe"
 
@@ -155,7 +156,7 @@ func init() {
 			Level: "exploration",
 			Rule: "family 0: every assignment {absent, allow, trace} of the alphabet Σ × every default action × both list orders; each built filter is interpreted (kernel cBPF semantics) on " +
 				"native arch × nr-set, on every other arch tag × a reduced nr-set, and with three argument/ip patterns; family 1: long policies (whole table allowed / traced / alternating / runprog configurations), " +
-				"forcing the long-jump paths; family 2: malformed policies (duplicate, unknown, overlapping names) must be refused, never compiled; family 3: histories of 2..3 Builds over a four-policy alphabet of different program lengths, every filter re-interpreted (and compared with a snapshot) after all later Builds — a filter belongs to its policy for as long as it is held; family 4 (thorough): full 2^32 nr sweeps and full 2^32 arch sweeps. " +
+				"forcing the long-jump paths; family 2: malformed policies (duplicate, unknown, overlapping names) must be refused, never compiled; family 3: histories of 2..3 Builds over a four-policy alphabet of different program lengths, every filter re-interpreted (and compared with a snapshot) after all later Builds — a filter belongs to its policy for as long as it is held; family 4 (complement, free-running, decides nothing): two goroutines building two different policies 200 times each at the same time, every filter checked against its own policy; family 5 (thorough): full 2^32 nr sweeps and full 2^32 arch sweeps. " +
 				"non-trivial: at least one name listed; distinct = hash of (policy, class vector over a fixed probe set)",
 			Bound: map[string]any{"sigma": sigma, "defaults": defaults, "nr_points": len(nrs), "arch_tags": len(arches),
 				"zone_note": "nr >= 2^31 with bit 30 clear: refusal or the default action accepted (the dependency refuses everything >= 2^30)"},
@@ -164,11 +165,16 @@ func init() {
 			SplitDepth: 4,
 		}
 		spec.Body = func(x *mc.X) {
-			nf := 4
+			nf := 5
 			if tier == "thorough" {
-				nf = 5
+				nf = 6
 			}
 			switch x.Choose(nf, "family") {
+			case 5:
+				c01sweep(x, info, sigma, allNames, sweepChunks)
+			case 4:
+				c01concurrent(x, info, allNames, nrs, arches)
+				return
 			case 0:
 				var p c01policy
 				p.def = defaults[x.Choose(len(defaults), "default")]
@@ -192,8 +198,6 @@ func init() {
 				c01malformed(x, sigma)
 			case 3:
 				c01history(x, info, allNames, nrs, arches, tier)
-			case 4:
-				c01sweep(x, info, sigma, allNames, sweepChunks)
 			}
 		}
 		return spec
@@ -528,6 +532,49 @@ func c01sweep(x *mc.X, info *arch.Info, sigma, all []string, chunks int) {
 // c01history: every sequence of 2..3 Builds over an alphabet of policies whose programs differ in length; after the
 // last Build every earlier filter must still be instruction-for-instruction what it was when returned and must still
 // implement its own policy.
+// c01concurrent: two goroutines build different policies at the same time, every filter either of them gets must be its
+// own policy's. The interleaving of the two Builds is NOT controlled (the builder has no scheduling points of ours): this
+// family is a free-running complement that can only add alarms — every alarm is a wrong filter — and decides nothing.
+func c01concurrent(x *mc.X, info *arch.Info, all []string, nrs, arches []uint32) {
+	alpha := []c01policy{
+		{allow: append([]string{}, all...), def: libseccomp.ActionKill},
+		{allow: []string{"read", "write"}, trace: []string{"execve"}, def: libseccomp.ActionKill},
+		{def: libseccomp.ActionAllow},
+		{allow: []string{"read"}, trace: []string{"open", "openat", "fork"}, def: libseccomp.ActionTrace},
+	}
+	a := x.Choose(len(alpha), "policy-a")
+	b := x.Choose(len(alpha), "policy-b")
+	x.Note("concurrent-builds", fmt.Sprint("policies ", a, " and ", b, ", 200 builds each, free-running"))
+	if x.Dry() {
+		return
+	}
+	if a == b {
+		x.Outcome("n/a:same-policy")
+		return
+	}
+	few := nrs
+	if len(few) > 400 {
+		few = few[:400]
+	}
+	var wg sync.WaitGroup
+	for _, pi := range []int{a, b} {
+		wg.Add(1)
+		go func(pi int) {
+			defer wg.Done()
+			for i := 0; i < 200 && !x.Failed(); i++ {
+				f, ok := c01build(x, alpha[pi])
+				if !ok {
+					return
+				}
+				c01checkFilter(x, info, alpha[pi], f, few, arches[:2], "concurrent-builds/")
+			}
+		}(pi)
+	}
+	wg.Wait()
+	x.Distinct(fmt.Sprint("concurrent", a, b))
+	x.Outcome("concurrent-builds")
+}
+
 func c01history(x *mc.X, info *arch.Info, all []string, nrs, arches []uint32, tier string) {
 	alpha := []c01policy{
 		{allow: append([]string{}, all...), def: libseccomp.ActionKill},                           // longest program
